@@ -2,12 +2,18 @@ import PP.Driver.Codec
 import PP.Model.StrDoc
 import PP.Driver.ValCodec
 import PP.Driver.RegCodec
+import PP.Model.Color
 open PP PP.Sexp
 
 /-- one layout configuration `(w rw smart)` -/
 def decodeCfg : Sexp → Option Cfg
   | .list [w, rw, sm] => do some { w := ← int? w, rw := ← int? rw, smart := (← nat? sm) == 1, ev := Pr.evalStr }
   | _ => none
+
+def encodeOut : Color.Out → Sexp
+  | .txt s => ofStr "t" s
+  | .sgr t => .list [sym "sgr", ofNat t]
+  | .reset => sym "reset"
 
 def handle (req : Sexp) : Sexp :=
   match req with
@@ -17,6 +23,14 @@ def handle (req : Sexp) : Sexp :=
       .list (sym "ok" :: cfgs.map fun cfg =>
         let out := layout cfg d
         .list [encodeSDocs out, ofStr "text" (render out)])
+    | _, _ => sym "bad-request"
+  | .list [.atom "color", out] =>
+    match decodeSDocs out with
+    | some out => .list (sym "ok" :: (Color.colorRender out).map encodeOut)
+    | none => sym "bad-request"
+  | .list [.atom "cpformat", v, st] =>
+    match decodeVal v, decodeSettings st with
+    | some v, some st => .list (sym "ok" :: (Color.colorRender (Pr.sdocsM st v)).map encodeOut)
     | _, _ => sym "bad-request"
   | .list (.atom "thr" :: r) =>
     match thrRequest r with
